@@ -5,7 +5,20 @@ package textwire
 // symCond returns a data value of an enumerated kind with a symbolic payload and the truthiness the statement of
 // C02 assigns to it; bound=false means the identifier is left out of the data map (evaluating it is an error).
 func symCond(name string) (val any, bound bool, truthy bool) {
-	switch vChoice(name+".kind", 10) {
+	switch vChoice(name+".kind", 15) {
+	case 9: // values that are "zero" for Go but objects / arrays for the template
+		return struct {
+			A int
+			S string
+		}{}, true, true
+	case 10:
+		return []int(nil), true, true
+	case 11:
+		return map[string]int(nil), true, true
+	case 12:
+		return &struct{ A int }{}, true, true
+	case 13:
+		return (*struct{ A int })(nil), true, false
 	case 0:
 		b := vBool(name)
 		return b, true, b
@@ -59,6 +72,7 @@ func HarnessC02If() {
 	truthy := make([]bool, n+1)
 	bodies := []string{"<B0>", "<B1>", "<B2>", "<B3>"}
 	construct := ""
+	gap := []string{"", " ", "\n", "\t "}[vChoice("gap-before-parenthesis", 4)]
 	for i := 0; i <= n; i++ {
 		v, b, t := symCond(c02Names[i])
 		bound[i], truthy[i] = b, t
@@ -66,9 +80,9 @@ func HarnessC02If() {
 			data[c02Names[i]] = v
 		}
 		if i == 0 {
-			construct += "@if(" + c02Names[i] + ")" + bodies[i]
+			construct += "@if" + gap + "(" + c02Names[i] + ")" + bodies[i]
 		} else {
-			construct += "@elseif(" + c02Names[i] + ")" + bodies[i]
+			construct += "@elseif" + gap + "(" + c02Names[i] + ")" + bodies[i]
 		}
 	}
 	if hasElse {
@@ -105,13 +119,14 @@ func HarnessC02Truthiness() {
 		data["c"] = v
 	}
 	var src, wantT, wantF string
+	gap := []string{"", " ", "\n"}[vChoice("gap-before-parenthesis", 3)]
 	switch vChoice("construct", 3) {
 	case 0:
 		src, wantT, wantF = "{{ c ? \"T\" : \"F\" }}", "T", "F"
 	case 1:
-		src, wantT, wantF = "@each(v in [1, 2, 3]){{ v }}@breakIf(c)|@end", "1", "1|2|3|"
+		src, wantT, wantF = "@each(v in [1, 2, 3]){{ v }}@breakIf"+gap+"(c)|@end", "1", "1|2|3|"
 	default:
-		src, wantT, wantF = "@each(v in [1, 2, 3]){{ v }}@continueIf(c)|@end", "123", "1|2|3|"
+		src, wantT, wantF = "@each(v in [1, 2, 3]){{ v }}@continueIf"+gap+"(c)|@end", "123", "1|2|3|"
 	}
 	out, err := EvaluateString(src, data)
 	vCover("rendered")
